@@ -377,6 +377,8 @@ def note_name_to_midi_pitch(note_name):
 
 def pitch_spelling_to_note_name(step, alter, octave):
     f_alter = ""
+    # None means unaltered (as in score.Note and pitch_spelling_to_midi_pitch)
+    alter = alter or 0
     if alter > 0:
         if alter == 2:
             f_alter = "x"
